@@ -58,8 +58,10 @@ def gen_request(nb=None, small=False):
         a = ("RSA", 8, 1024, 65537) if k["alg"] == 8 else ("ECDSA", 13, 256)
         if a not in algs:
             algs.append(a)
-    for extra in R.sample([("RSA", 10, 2048, 3), ("ECDSA", 14, 384), ("RSA", 8, 4096, 65537)], R.randrange(0, 3)):
-        if len(algs) < 3:
+    # further declared algorithms, among them entries that differ from another one in a single parameter (exponent only, size only, number only)
+    for extra in R.sample([("RSA", 10, 2048, 3), ("ECDSA", 14, 384), ("RSA", 8, 4096, 65537), ("RSA", 8, 1024, 3), ("RSA", 10, 1024, 65537), ("RSA", 8, 1024, 2**32 + 1),
+                           ("RSA", 10, 2048, 65537)], R.randrange(0, 4)):
+        if len(algs) < 4 and extra not in algs:
             algs.append(extra)
     req = skrgen.honest_request(f"id-{R.randrange(10**8):x}", NOW + D(days=3, seconds=R.randrange(86400)), nb, slots,
                                 ksrxml.default_zsk_policy(algs=algs), sign=True)
@@ -131,6 +133,20 @@ for i in range(120 * SCALE):
         violation("canonical", f"a conformant KSR (canonical layout) is refused by the reader: {rb_[2]}", canon)
         continue
     base = rb_[1]
+    # the request object against the generator's own data (what any reader of the document must extract), field by field
+    want_req = skrgen.k_request(req)
+    diffs = [f for f in ("id", "serial", "domain") if getattr(base, f) != getattr(want_req, f)]
+    if base.timestamp != req.get("timestamp"):
+        diffs.append("timestamp")
+    for f in ("publish_safety", "retire_safety", "max_signature_validity", "min_signature_validity", "max_validity_overlap", "min_validity_overlap", "algorithms"):
+        if getattr(base.zsk_policy, f) != getattr(want_req.zsk_policy, f):
+            diffs.append("zsk_policy." + f)
+    if {b.id: b for b in base.bundles} != {b.id: b for b in want_req.bundles} or len(base.bundles) != len(want_req.bundles):
+        diffs.append("bundles")
+    count("request-vs-generator")
+    if diffs:
+        violation("canonical", f"the loaded request differs from the document's content in {diffs}"
+                  + (f": algorithms read {sorted(map(str, base.zsk_policy.algorithms))}, document states {sorted(map(str, want_req.zsk_policy.algorithms))}" if "zsk_policy.algorithms" in diffs else ""), canon)
     base_verdict = verdict(base, len(req["bundles"]))
     d0 = compare_with_et("canonical", canon)
     for variant in range(2):
